@@ -309,10 +309,33 @@ Definition extract_topics (ms : list member) : list bytes := sort_bytes (extract
 Definition read_partitions (cluster : list partition) (topics : list bytes) : list partition :=
   filter (fun p => existsb (bytes_eqb (p_topic p)) topics) cluster.
 
-(* assignTopicPartitions on the success path: balancer.AssignGroups(members, partitions)
-   with partitions = conn.readPartitions(extractTopics(members)...) *)
+(* the broker: a metadata request naming a topic it does not have fails as a whole with
+   UnknownTopicOrPartition ([None]); a topic exists iff the cluster lists a partition of it *)
+Definition topic_exists (cluster : list partition) (t : bytes) : bool :=
+  existsb (fun p => bytes_eqb (p_topic p) t) cluster.
+Definition broker_read (cluster : list partition) (topics : list bytes) : option (list partition) :=
+  if forallb (topic_exists cluster) topics then Some (read_partitions cluster topics) else None.
+
+(* the fallback loop of assignTopicPartitions: one request per topic, unknown ones skipped *)
+Definition read_each (cluster : list partition) (topics : list bytes) : list partition :=
+  flat_map (fun t => match broker_read cluster [t] with Some ps => ps | None => [] end) topics.
+
+(* assignTopicPartitions: partitions, err := conn.readPartitions(extractTopics(members)...);
+   on UnknownTopicOrPartition with more than one topic, ask for each topic on its own;
+   with one topic the (nil) result of the failed read is kept *)
 Definition leader_partitions (ms : list member) (cluster : list partition) : list partition :=
-  read_partitions cluster (extract_topics ms).
+  let topics := extract_topics ms in
+  match broker_read cluster topics with
+  | Some ps => ps
+  | None => if 1 <? length topics then read_each cluster topics else []
+  end.
+(* the metadata requests the leader sends, in order *)
+Definition leader_requests (ms : list member) (cluster : list partition) : list (list bytes) :=
+  let topics := extract_topics ms in
+  match broker_read cluster topics with
+  | Some _ => [topics]
+  | None => topics :: (if 1 <? length topics then map (fun t => [t]) topics else [])
+  end.
 Definition leader_range (ms : list member) (cluster : list partition) : list triple :=
   range_assign ms (leader_partitions ms cluster).
 Definition leader_rr (ms : list member) (cluster : list partition) : list triple :=
